@@ -158,12 +158,16 @@ type sortedRevNsLister struct {
 	mclisters.ControllerRevisionNamespaceLister
 }
 
+// revListDesc: list the revisions in descending name order (the real lister's order is arbitrary; scenarios fix one of
+// the two so that both orders get exercised). Set per scenario; the cache dump uses the same order.
+var revListDesc bool
+
 func sortRevs(rs []*v1alpha1.ControllerRevision) []*v1alpha1.ControllerRevision {
 	sort.Slice(rs, func(i, j int) bool {
 		if rs[i].Namespace != rs[j].Namespace {
-			return rs[i].Namespace < rs[j].Namespace
+			return (rs[i].Namespace < rs[j].Namespace) != revListDesc
 		}
-		return rs[i].Name < rs[j].Name
+		return (rs[i].Name < rs[j].Name) != revListDesc
 	})
 	return rs
 }
@@ -296,6 +300,7 @@ func newIndexer() cache.Indexer {
 
 func newWorld(cfg scfg) *world {
 	w := &world{cfg: cfg, childIdx: map[string]cache.Indexer{}, relIdx: map[string]cache.Indexer{}, hashBodies: map[uint64]interface{}{}}
+	revListDesc = false
 	common.VerifMemoReset()
 	defs := simDefs(cfg)
 	w.sim = vs.NewSim(defs)
@@ -447,7 +452,13 @@ func (w *world) cacheDump() vs.M {
 	for r, idx := range w.relIdx {
 		related[r] = dump(idx)
 	}
-	return vs.M{"parents": dump(w.parentIdx), "children": children, "related": related, "revisions": dump(w.revIdx)}
+	revs := dump(w.revIdx)
+	if revListDesc {
+		for i, j := 0, len(revs)-1; i < j; i, j = i+1, j-1 {
+			revs[i], revs[j] = revs[j], revs[i]
+		}
+	}
+	return vs.M{"parents": dump(w.parentIdx), "children": children, "related": related, "revisions": revs}
 }
 
 // revCanon: a ControllerRevision as JSON with parentPatch decoded.
